@@ -665,6 +665,28 @@ def run_c07_interleave_part(chk, theorems_ok):
                        "observed": obs[i], "driver": "interleave_driver", "disagreements": len(failing)}, no_input=True)
 
 
+def run_c14_interleave_part(chk):
+    """C14 under overlapping calls: every breaker event a hook receives names the state the breaker is in at that moment (a rejection
+    while a probe is in flight says half_open).  Oracle on the implementation, scenarios of the C07 interleaving generator."""
+    n = 300 if chk.tier == "quick" else 4000
+    scs = [gen_interleaving(chk.rng) for _ in range(n)]
+    for s in scs:
+        s.pop("_bc", None)
+    obs = common.run_driver("interleave_driver", scs, jobs=8)
+    drv = [o["calls"][0] for o in obs if o["calls"] and o["calls"][0][0] == "driver_error"]
+    if drv:
+        raise common.DriverError("interleave_driver failed: " + str(drv[0][1])[-1500:])
+    bad = [(i, o["event_state_tags_wrong"]) for i, o in enumerate(obs) if o.get("event_state_tags_wrong")]
+    chk.coverage["interleaved_breaker_events"] = {
+        "scenarios": len(scs), "rejections_while_half_open": sum(1 for o in obs for e in o["log"] if e[0] == "A" and not e[3] and e[4] == "HALF_OPEN"),
+        "note": "oracle only: the state tag of every circuit_* event equals the breaker's state when the hook receives it"}
+    chk.coverage["evaluations"] = chk.coverage.get("evaluations", 0) + len(scs)
+    if bad:
+        i, w = min(bad, key=lambda x: len(scs[x[0]]["schedule"]))
+        chk.violation({"kind": "oracle", "part": "interleaved-events", "what": f"breaker event {w[0][0]} carried state={w[0][1]!r} while the breaker "
+                       f"was {w[0][2]!r}", "scenario": scs[i], "observed": obs[i], "driver": "interleave_driver", "also_failing": len(bad)})
+
+
 def _overlap(log):
     out = set()
     for e in log:
@@ -680,6 +702,10 @@ def _overlap(log):
 def replay_interleaving(path):
     r = json.load(open(path))
     o = common.run_driver("interleave_driver", [r["scenario"]])[0]
+    if r.get("part") == "interleaved-events":
+        print("observed:", json.dumps(o)[:1500])
+        print("oracle:", o.get("event_state_tags_wrong") or "holds")
+        return 1 if o.get("event_state_tags_wrong") else 0
     m = oracle_interleaving(r["scenario"], o, True)
     print("observed:", json.dumps(o)[:1500])
     print("oracle:", m or "holds")
